@@ -243,8 +243,20 @@ pub fn enumerate_episode(
     let gcfg = GenCfg::valid_only(&mut wl);
     let base = gen_single(&mut wl, &gcfg, hash_key);
     let mut scripts: Vec<Script> = vec![vec![]];
-    scripts.extend(single_faults_packet(&base.bytes));
+    let singles = single_faults_packet(&base.bytes);
+    // 64 seeded pairs of arbitrary single faults (two independent deviations at once), besides
+    // the 200 structured double faults
+    let mut pairs: Vec<Script> = Vec::new();
+    if singles.len() >= 2 {
+        for _ in 0..64 {
+            let a = singles[fr.below(singles.len())].clone();
+            let b = singles[fr.below(singles.len())].clone();
+            pairs.push(a.into_iter().chain(b).collect());
+        }
+    }
+    scripts.extend(singles);
     scripts.extend(double_faults_packet(&mut fr, &base.bytes, 200));
+    scripts.extend(pairs);
     for script in scripts.iter() {
         let (d, fired) = apply_script(&base.bytes, script);
         if !script.is_empty() && !fired {
